@@ -264,7 +264,14 @@ fn main_inner() -> Result<(), RunError> {
             }
         }
     } else {
-        match std::io::stdout().write_all(output.as_bytes()) {
+        // Flush explicitly: stdout is line-buffered, so a final line without
+        // a trailing newline would otherwise be written at exit, where a
+        // failure cannot be reported.
+        let mut stdout = std::io::stdout().lock();
+        match stdout
+            .write_all(output.as_bytes())
+            .and_then(|()| stdout.flush())
+        {
             Ok(()) => {}
             Err(e) => {
                 eprintln!("failed to write to stdout: {e}");
